@@ -74,13 +74,13 @@ type Proc struct {
 
 // Config bounds a run.
 type Config struct {
-	MaxSteps   int           // scheduler grants
-	MaxSimTime time.Duration // simulated time
-	StallPerMille int        // probability that the scheduler lets time pass while tasks are ready
-	StallMax   time.Duration
-	Sticky     int // per mille probability to keep running the same task when it is ready (generation only)
-	LockYield  map[string]bool // package path suffixes for which Lock() is a scheduling point
-	Trace      bool
+	MaxSteps      int           // scheduler grants
+	MaxSimTime    time.Duration // simulated time
+	StallPerMille int           // probability that the scheduler lets time pass while tasks are ready
+	StallMax      time.Duration
+	Sticky        int             // per mille probability to keep running the same task when it is ready (generation only)
+	LockYield     map[string]bool // package path suffixes for which Lock() is a scheduling point
+	Trace         bool
 }
 
 // Sim is one simulated execution.
@@ -348,6 +348,20 @@ func (s *Sim) yield(t *Task, site string) {
 func Pre(site string) {
 	s := current()
 	if s == nil {
+		return
+	}
+	t := s.self()
+	if t == nil {
+		return
+	}
+	s.yield(t, site)
+}
+
+// PreIf is Pre for the statements of methods of lock-carrying types: a scheduling point only in runs that enable
+// lock-level exploration for the package the site lies in (Config.LockYield).
+func PreIf(site string) {
+	s := current()
+	if s == nil || len(s.Cfg.LockYield) == 0 || !s.lockYield(site) {
 		return
 	}
 	t := s.self()
@@ -695,6 +709,15 @@ func Unlock(m *sync.Mutex) {
 		if m.TryLock() {
 			m.Unlock()
 			return
+		}
+	} else if t != nil {
+		// Unlocking an unlocked mutex is a fatal error of the Go runtime: the real process dies on the spot (no deferred
+		// functions, no recover). In the simulation only the simulated process may die, never the worker: turn it into a
+		// panic of this task, which ends the simulated process like any escaped Go panic. (Exactly one task runs at a
+		// time, so the TryLock probe cannot collide with another owner.)
+		if m.TryLock() {
+			m.Unlock()
+			panic("fatal error: sync: unlock of unlocked mutex")
 		}
 	}
 	m.Unlock()
